@@ -220,7 +220,7 @@ def main():
         for x in c:
             by[x["file"]] = by.get(x["file"], 0) + 1
         print(len(c), "candidates", by)
-    elif cmd in ("run", "run2"):
+    elif cmd in ("run", "run2", "run3"):
         workers = opt("--workers", 6)
         limit = opt("--limit", 100000)
         cands = json.load(open(CANDS))
@@ -234,6 +234,21 @@ def main():
                     surv.add(r["id"])
             cands = [c for c in cands if c["id"] in surv]
             OUT = OUT.replace("campaign.jsonl", "campaign_pass2.jsonl")
+            FULL = True
+        if cmd == "run3":
+            # third pass, after the checks were strengthened: what survived passes 1 and 2, full battery
+            surv = set()
+            for l in open(OUT):
+                r = json.loads(l)
+                if r["status"] == "survived" and r.get("existing_tests_failed") == 0:
+                    surv.add(r["id"])
+            p2 = OUT.replace("campaign.jsonl", "campaign_pass2.jsonl")
+            for l in open(p2):
+                r = json.loads(l)
+                if r["status"] == "detected":
+                    surv.discard(r["id"])
+            cands = [c for c in cands if c["id"] in surv]
+            OUT = OUT.replace("campaign.jsonl", "campaign_pass3.jsonl")
             FULL = True
         done = set()
         if os.path.exists(OUT):
@@ -272,13 +287,14 @@ def main():
         sh(f"git -C {REPO} worktree prune")
     elif cmd == "report":
         rows = [json.loads(l) for l in open(OUT)]
-        p2 = OUT.replace("campaign.jsonl", "campaign_pass2.jsonl")
-        if os.path.exists(p2):
-            second = {json.loads(l)["id"]: json.loads(l) for l in open(p2)}
-            for r in rows:
-                if r["id"] in second and second[r["id"]]["status"] == "detected":
-                    r["status"] = "detected"
-                    r["detected_by"] = second[r["id"]]["detected_by"] + " (full battery)"
+        for name, label in (("campaign_pass2.jsonl", " (full battery)"), ("campaign_pass3.jsonl", " (full battery, strengthened checks)")):
+            p2 = OUT.replace("campaign.jsonl", name)
+            if os.path.exists(p2):
+                second = {json.loads(l)["id"]: json.loads(l) for l in open(p2)}
+                for r in rows:
+                    if r["status"] == "survived" and r["id"] in second and second[r["id"]]["status"] == "detected":
+                        r["status"] = "detected"
+                        r["detected_by"] = second[r["id"]]["detected_by"] + label
         st = {}
         for r in rows:
             st[r["status"]] = st.get(r["status"], 0) + 1
